@@ -100,7 +100,7 @@ def line_parts(chk, f, arg):
     return parts
 
 
-def rule_line(chk, prefix="C10"):
+def rule_line(chk, prefix="C10", flush=True):
     ctx = chk.ctx
     f = _fd(chk, "__call__")
     cfg, fcalls = file_calls(chk, f)
@@ -118,6 +118,12 @@ def rule_line(chk, prefix="C10"):
             good="exactly one self.file.write on every path to the normal exit",
             fail="self.file.write calls per message range %s: a reader (or a crash) can observe a partial line, or a message is not written" % (rng,),
             sites=len(cfg.live))
+    if flush:
+        _rule_flush(chk, prefix, f, cfg, writes, flushes, cnt, where)
+    _rule_rest(chk, prefix, f, cfg, fcalls, writes, others, mparam, where)
+
+
+def _rule_flush(chk, prefix, f, cfg, writes, flushes, cnt, where):
     rngf = cfg.count_range(cfg.entry, [cfg.exit], cnt(flushes)) if flushes else (0, 0)
     okord = bool(flushes) and cfg.precedes([n for n, c, m in writes], [n for n, c, m in flushes])[0] \
         and cfg.must_pass([s for n, c, m in writes for s, l in n.succ if l != "exc"], [cfg.exit], [n for n, c, m in flushes])[0]
@@ -125,6 +131,10 @@ def rule_line(chk, prefix="C10"):
             good="exactly one flush, after the write, before the call returns",
             fail="self.file.flush() calls per message range %s%s: a returned logging call does not imply the line left the process"
                  % (rngf, "" if okord else "; the flush does not follow the write on every path"))
+
+
+def _rule_rest(chk, prefix, f, cfg, fcalls, writes, others, mparam, where):
+    ctx = chk.ctx
     chk.req(not others, "%s.line" % prefix, "FileDestination.__call__:no-other-file-operation", where,
             good="only write and flush touch the file", fail="other operations on the file: %s" % [a for _, _, _, a in others])
     # content of the line
